@@ -195,3 +195,15 @@ package analysis
 //@   props C05 C14
 //@   at call CreateScopeInfo#0 before assert[scope-range-is-the-whole-statement] arg2 == node.Loc && arg0 == a.curScope
 //@ end
+
+// ---- C17: the switch of the call-parameter COUNT check (type 10) gates only the count reports ----
+// Proved: a count report is made only while the count switch is on. NOT claimed: reading the code, ignoring type 10 also
+// skips the parameter TYPE check (type 24, which has its own switches); no failing input could be constructed on the
+// real code (the type check produced no diagnostic in the attempts), so this is neither a finding nor an obligation.
+//@ func (*Analysis).isNeedCheck
+//@   pure
+//@ end
+//@ func (*Analysis).cgFuncCallParamCheck
+//@   props C17
+//@   at call InsertError#* before assert[count-report-only-when-its-switch-is-on] arg1 == common.CheckErrorCallParam && !old(has(common.GConfig.IgnoreErrorTypeMap, common.CheckErrorCallParam))
+//@ end
